@@ -842,6 +842,12 @@ class C16(PropertyCheck):
         "QipVerif.C16.no_alias",
         "QipVerif.C16.fresh_equivalent_load",
         "QipVerif.C16.query_pure",
+        "QipVerif.C16.transform_result_independent",
+        "QipVerif.C16.noise_fresh_equivalent",
+        "QipVerif.C16.pulse_padding_same_function",
+        "QipVerif.C16.C16_counterexample_reverse_shares",
+        "QipVerif.C16.C16_counterexample_chain_shares_lists",
+        "QipVerif.C16.C16_counterexample_noise_rewrites",
         "QipVerif.C16.C16_counterexample_cbits_alias",
         "QipVerif.C16.C16_counterexample_phase_accumulates",
         "QipVerif.C16.C16_counterexample_state_getter",
